@@ -263,6 +263,79 @@ theorem read_source_truncated (file seq : Bytes) (idx : Idx) (start stop n : Nat
   rw [read_truncated file seq idx start stop n sched wf h1 h2 hs hcut] at ha
   exact ⟨s', out, by rw [h]; exact congrArg (fun x => Rs.Res.ok (x, s', out)) ha⟩
 
+open RbV.Thm.GenSrcIdxFa in
+/-- **`fill_buffer`** (one refill of the iterator's private buffer, from a state with the loop invariant, `bases_left > 0`):
+the next chunk of at least one and at most `bases_left` bases when the next base lies inside the file, an error otherwise;
+for every positive chunk size asked for (`capacity()` or a constant: seeded change C12-H1). -/
+theorem fill_buffer_source_spec (f : Bytes) (sched : Nat → Nat) (idx : Idx) (cap bi bl cur : Nat) (buf : Bytes)
+    (hlb : 0 < idx.lb) (hlB : idx.lb < idx.lB) (hs : ∀ k, 0 < sched k) (h64 : idx.lB < 2 ^ 64)
+    (hcap : 0 < cap) (hbl : 0 < bl) (fuel : Nat) (s : St) (lo line : Nat)
+    (inv : Inv f idx s lo cur line) (hfuel : s.rest.length + 1 < fuel) :
+    (pos idx cur < f.length →
+      ∃ s' lo' n line', 0 < n ∧ n ≤ bl ∧
+        Gen.SrcIdxFa.fillBuffer (fillBufOp sched) consumeOp cap s (toRec idx) bl lo buf bi fuel =
+          .ok (.ok (), s', bl - n, lo', slice f idx cur (cur + n), 0) ∧
+        Inv f idx s' lo' (cur + n) line' ∧ s'.rest.length ≤ s.rest.length ∧
+        (∀ j, j < n → pos idx (cur + j) < f.length)) ∧
+    (f.length ≤ pos idx cur →
+      ∃ s' bl' lo' buf' bi', Gen.SrcIdxFa.fillBuffer (fillBufOp sched) consumeOp cap s (toRec idx) bl lo buf bi fuel =
+          .ok (.error eofErr, s', bl', lo', buf', bi')) :=
+  fillBuffer_spec f sched idx cap bi bl cur buf hlb hlB hs h64 hcap hbl fuel s lo line inv hfuel
+
+open RbV.Thm.GenSrcIdxFa in
+/-- **The byte iterator: translated code = mirror model.**  `drainIt` calls the translated `next` (which calls the
+translated `fill_buffer`, which calls the translated `read_line`) until it returns `None`; from the state the translated
+`seek_to` leaves (first conjunct), the items are exactly those of the model's `readIter`: the bytes, then the error that
+ended it, if any.  (`read_into_iter` itself — two comparisons and a struct literal — is read by hand: it yields the state
+`(reader after seek_to, bases_left = stop - start, line_offset, buf = [], buf_idx = 0)`.) -/
+theorem iter_source_eq_model (file : Bytes) (sched : Nat → Nat) (idx : Idx) (cap start stop fuel calls : Nat) (s0 : St)
+    (hlb : 0 < idx.lb) (hlB : idx.lb < idx.lB) (hs : ∀ k, 0 < sched k) (h64 : idx.lB < 2 ^ 64)
+    (hcap : 0 < cap) (h1 : start ≤ stop) (h2 : stop ≤ idx.len) (hstop : stop < 2 ^ 64) (hfit : pos idx start < 2 ^ 64)
+    (hfuel : file.length + 1 < fuel) (hcalls : stop - start + 2 ≤ calls) :
+    Gen.SrcIdxFa.seekTo (seekOp file) s0 (toRec idx) start =
+      .ok (.ok (seekTo file idx start).2, (seekTo file idx start).1) ∧
+    ∃ r, readIter file sched idx start stop = .ok r ∧
+      drainIt sched cap idx fuel calls ((seekTo file idx start).1, stop - start, (seekTo file idx start).2, [], 0) =
+        .ok (itemsOf r) := by
+  refine ⟨seekTo_eq_model file idx start s0 hlb (by omega) hfit, _, ?_,
+    iter_eq_model file sched idx cap start stop fuel calls hlb hlB hs h64 hcap hstop h1 hfuel hcalls⟩
+  unfold readIter
+  rw [if_neg (by omega), if_neg (by omega)]
+
+open RbV.Thm.GenSrcIdxFa in
+/-- **The drained translated iterator yields exactly `seq[start..stop]`** and no error item, for every well-formed file,
+every chunk schedule, every positive buffer capacity. -/
+theorem iter_source_correct (file seq : Bytes) (idx : Idx) (cap start stop fuel calls : Nat) (sched : Nat → Nat)
+    (wf : WellFormed file idx seq) (h1 : start ≤ stop) (h2 : stop ≤ idx.len) (hs : ∀ k, 0 < sched k)
+    (h64 : idx.lB < 2 ^ 64) (hcap : 0 < cap) (hstop : stop < 2 ^ 64)
+    (hfuel : file.length + 1 < fuel) (hcalls : stop - start + 2 ≤ calls) :
+    drainIt sched cap idx fuel calls ((seekTo file idx start).1, stop - start, (seekTo file idx start).2, [], 0) =
+      .ok (okItems ((seq.drop start).take (stop - start))) := by
+  have hm := iter_correct file seq idx start stop sched wf h1 h2 hs
+  unfold readIter at hm
+  rw [if_neg (by omega), if_neg (by omega)] at hm
+  rw [iter_eq_model file sched idx cap start stop fuel calls wf.lb_pos wf.lB_gt hs h64 hcap hstop h1 hfuel hcalls,
+    Except.ok.inj hm]
+  simp [itemsOf]
+
+open RbV.Thm.GenSrcIdxFa in
+/-- … and on a file cut inside the span: a correct strictly shorter prefix, then the truncation error as the last item. -/
+theorem iter_source_truncated (file seq : Bytes) (idx : Idx) (cap start stop n fuel calls : Nat) (sched : Nat → Nat)
+    (wf : WellFormed file idx seq) (h1 : start < stop) (h2 : stop ≤ idx.len) (hs : ∀ k, 0 < sched k)
+    (hcut : n ≤ pos idx (stop - 1)) (h64 : idx.lB < 2 ^ 64) (hcap : 0 < cap) (hstop : stop < 2 ^ 64)
+    (hfuel : (file.take n).length + 1 < fuel) (hcalls : stop - start + 2 ≤ calls) :
+    ∃ m, m < stop - start ∧
+      drainIt sched cap idx fuel calls
+          ((seekTo (file.take n) idx start).1, stop - start, (seekTo (file.take n) idx start).2, [], 0) =
+        .ok (okItems (((seq.drop start).take (stop - start)).take m) ++ [.error eofErr]) := by
+  obtain ⟨m, hm1, hm⟩ := iter_truncated file seq idx start stop n sched wf h1 h2 hs hcut
+  unfold readIter at hm
+  rw [if_neg (by omega), if_neg (by omega)] at hm
+  refine ⟨m, hm1, ?_⟩
+  rw [iter_eq_model (file.take n) sched idx cap start stop fuel calls wf.lb_pos wf.lB_gt hs h64 hcap hstop
+    (Nat.le_of_lt h1) hfuel hcalls, Except.ok.inj hm]
+  simp [itemsOf, toIo]
+
 /-! ## Non-vacuity: a concrete two-line record, LF and CRLF -/
 
 private def exFile : Bytes := [62, 97, 10, 65, 67, 71, 10, 84, 10]        -- ">a\nACG\nT\n"
@@ -306,5 +379,12 @@ example : ∃ s' seq', Gen.SrcIdxFa.readIntoBuffer (fillBufOp (fun _ => 2)) cons
 open RbV.Thm.GenSrcIdxFa in
 example : Gen.SrcIdxFa.seekTo (seekOp exFile) ⟨[], 0, 0⟩ (toRec exIdx) 3 = .ok (.ok 0, ⟨[84, 10], 0, 0⟩) :=
   seek_to_source_eq_model exFile exIdx 3 _ (by decide) (by decide) (by decide)
+
+open RbV.Thm.GenSrcIdxFa in
+/-- the translated iterator, refills of 1, 2, 3, … bytes, a buffer capacity of 2: `A C G T`, then `None` -/
+example : drainIt (fun k => k + 1) 2 exIdx 20 10 ((seekTo exFile exIdx 0).1, 4 - 0, (seekTo exFile exIdx 0).2, [], 0) =
+    .ok [.ok 65, .ok 67, .ok 71, .ok 84] :=
+  iter_source_correct exFile exSeq exIdx 2 0 4 20 10 (fun k => k + 1) exWf (by decide) (by decide) (fun _ => by omega)
+    (by decide) (by decide) (by decide) (by decide) (by decide)
 
 end RbV.Thm.C12
